@@ -67,7 +67,9 @@ class OpAdd(Op):
         target = self.path.parts[-1]
         if isinstance(parent, MutableSequence):
             if obj is UNDEFINED:
-                if target == "-":
+                # The index one past the end, spelled "-" or as a number. The
+                # number is a string if the pointer was built from parts.
+                if target == "-" or str(target) == str(len(parent)):
                     parent.append(self.value)
                 else:
                     raise JSONPatchError("index out of range")
